@@ -94,7 +94,7 @@ def c09_p2(t: P2, p: int) -> bool:
 def c09_p3(t: P3, p: int, perm: int) -> bool:
     """
     pre: pinned(h0=t[0], l0=t[1], s0=t[2], h1=t[4], perm=perm)
-    pre: p == 3 and 0 <= perm < 6
+    pre: (p == 3) & ((0 <= perm) & (perm < 6))
     pre: cfg_canonical(t, p, 2, 2, 2)
     post: _
     """
@@ -108,7 +108,7 @@ def c09_b4(t: P2B4, p: int) -> bool:
     pre: pinned(l0=t[1], l1=t[7], s0=t[2], h1=t[6])
     pre: p == 2
     pre: cfg_canonical(t, p, 2, 2, 4)
-    pre: t[1] >= 3 and t[7] >= 3
+    pre: (t[1] >= 3) & (t[7] >= 3)
     post: _
     """
     prods = enc.decode_cfg(t, p, 2, 2, 4)
@@ -124,7 +124,7 @@ def _chain_oracle(args, obs):
 def c09_chain(sd: bool, aa: bool, bmask: int, cmask: int) -> bool:
     """
     pre: pinned(sd=sd, aa=aa, bmask=bmask)
-    pre: 0 <= bmask < 16 and 0 <= cmask < 8
+    pre: ((0 <= bmask) & (bmask < 16)) & ((0 <= cmask) & (cmask < 8))
     post: _
     """
     from vlib.conds import chain
@@ -146,7 +146,7 @@ S4 = Tuple[int, int, int, int, int, int, int, int]
 def c09_b4s(b: S4) -> bool:
     """
     pre: pinned(x0=b[0], x1=b[1], y0=b[4])
-    pre: all(0 <= b[i] < 3 for i in range(8))
+    pre: enc.in_range(b, 3)
     pre: (b[0], b[1], b[2], b[3]) < (b[4], b[5], b[6], b[7])
     post: _
     """
